@@ -224,3 +224,8 @@ func closeResources() {
 		f()
 	}
 }
+
+func fileExists(p string) bool {
+	_, err := os.Stat(p)
+	return err == nil
+}
